@@ -48,6 +48,26 @@ class SimMem:
         self.image = bytearray(image if image is not None else bytes(size))
 
 
+class SparseMem:
+    """Memory covering the whole 32-bit address space: written bytes in a dict, the rest a fixed pattern."""
+
+    def __init__(self, mtype=0x15, size=0x100000000, seed=0):
+        self.mtype, self.size, self.addr, self.seed = mtype, size, 0, seed
+        self.cells = {}
+        self.writes = []                 # (addr, bytes) in arrival order
+
+    def background(self, a):
+        return (a * 7 + (a >> 8) * 13 + self.seed * 31 + 5) & 0xff
+
+    def read(self, addr, n):
+        return bytes(self.cells.get(a, self.background(a)) for a in range(addr, addr + n))
+
+    def write(self, addr, data):
+        self.writes.append((addr, bytes(data)))
+        for i, b in enumerate(data):
+            self.cells[addr + i] = b
+
+
 class SimCF:
     def __init__(self, protocol=10, log=(), params=(), mems=(), log_crc=0x11223344, param_crc=0x55667788,
                  versioning=True):
@@ -61,6 +81,7 @@ class SimCF:
         self.rx = []                      # every packet received: (t, port, chan, bytes)
         self.silent_ports = set()         # ports that never answer (for C10)
         self.mem_status = {}              # (memid, 'r'|'w', addr) -> error status once
+        self.mem_by_id = {}               # extra memories addressed by id (not announced in the info list)
         self.hooks = []                   # callables(port, chan, data) -> replies or None (checked first)
         self.v2 = protocol >= 4 and versioning
 
@@ -272,23 +293,28 @@ class SimCF:
         if chan == 1:
             mid, addr, ln = struct.unpack('<BIB', data[:6])
             st = self.mem_status.pop((mid, 'r', addr), 0)
-            if mid >= len(self.mems):
+            m = self.mem_by_id.get(mid) if mid in self.mem_by_id else (self.mems[mid] if mid < len(self.mems) else None)
+            if m is None:
                 st = st or ENOENT
             if st:
                 return [data[:5] + bytes([st])]
-            m = self.mems[mid]
+            if isinstance(m, SparseMem):
+                return [data[:5] + b'\0' + m.read(addr, ln)]
             chunk = bytes(m.image[addr:addr + ln])
             chunk += bytes(ln - len(chunk))
             return [data[:5] + b'\0' + chunk]
         if chan == 2:
             mid, addr = struct.unpack('<BI', data[:5])
             st = self.mem_status.pop((mid, 'w', addr), 0)
-            if mid >= len(self.mems):
+            m = self.mem_by_id.get(mid) if mid in self.mem_by_id else (self.mems[mid] if mid < len(self.mems) else None)
+            if m is None:
                 st = st or ENOENT
             if st:
                 return [data[:5] + bytes([st])]
-            m = self.mems[mid]
             body = data[5:]
+            if isinstance(m, SparseMem):
+                m.write(addr, body)
+                return [data[:5] + b'\0']
             if addr + len(body) > len(m.image):
                 m.image.extend(bytes(addr + len(body) - len(m.image)))
             m.image[addr:addr + len(body)] = body
